@@ -185,6 +185,50 @@ def handle_verdicts(ctx, verdicts, traces, origin):
       ctx.note_drift('%s trace %d deviates from TokenBucket.tla: %s' % (origin, tid, sorted(df)))
 
 
+def writer_level(ctx):
+  from . import writersys, writercheck, cachesys, sched
+  wm = writersys.WriterModules(ctx.scratch)
+  traces, origin = [], []
+  for (creates, updates) in ctx.pick([(6, 3), (120, 1)], [(6, 3), (120, 1), (60, 10), (12, 2), (600, 5)]):
+    wm.configure(creates, updates, None)
+    for st in ('sorted', 'max'):
+      rng = ctx.rng
+      nm = rng.randint(8, 14)
+      r_ops = []
+      vid = 0
+      for rep in range(2):
+        for m in range(1, nm + 1):
+          vid += 1
+          r_ops.append(('store', 'm%d' % m, rep + 1, vid))
+      cfg = dict(strategy=st, lag=0, buckets=wm.buckets, coarse=True)
+      run = writersys.WriterRun(wm, cfg, r_ops, faults=set(), preexisting=('m1', 'm2'))
+      # the storing thread first, then the writer until it is idle, then the stop
+      try:
+        tr, log = run.execute(sched.segment_chooser([('R', None), ('W', 4000), ('S', None), ('W', None)]))
+      except (sched.Blocked, sched.Deadlock, sched.StepLimit) as e:
+        raise Machinery('writer-level run did not finish: %r' % e)
+      ctx.evaluations += 1
+      for op, cap, rn in (('create', creates, creates), ('write', updates, updates * 60)):
+        times = [e['now'] for e in tr['ev'] if e['k'] == 'db' and e['op'] == op and e['ok']]
+        if len(times) >= 2:
+          traces.append(dict(cap=cap, rn=rn, ev=[dict(op='try', now=t, ok=1, wait=0, c=0, r=0, tok=0, st=0) for t in times]))
+          origin.append(dict(limit='MAX_CREATES_PER_MINUTE=%d' % creates if op == 'create' else 'MAX_UPDATES_PER_SECOND=%d' % updates,
+                             strategy=st, calls=len(times), first_and_last_ticks=[times[0], times[-1]]))
+  if not traces:
+    raise Machinery('writer-level runs produced no rate-limited calls')
+  verdicts = judge(ctx, 61440, traces, 'writer-level grants')
+  for i, tr in enumerate(traces):
+    ctx.traces += 1
+    ctx.nontriv(('writer', i))
+    pf = verdicts[i + 1] & {'window', 'windowall'}
+    if pf:
+      ctx.violation('writer level: the %s calls of writeCachedDataPoints() exceed the configured limit over some time window: %s'
+                    % ('create' if 'CREATES' in origin[i]['limit'] else 'write', sorted(pf)),
+                    dict(origin=origin[i], grant_times_in_1_1024_s=[e['now'] for e in tr['ev']][:60]), signature='c20:writer:' + ','.join(sorted(pf)))
+  ctx.cov['writer_level_grant_sequences'] = len(traces)
+  wm.configure(None, None, None)
+
+
 def run(ctx):
   ctx.rule = ('TLC: TokenBucket.tla exhaustive for small caps/rates/steps; replays: TLC -simulate '
               'behaviours stepped through the real TokenBucket; traces: random histories (cap 1..1000, '
@@ -243,6 +287,10 @@ def run(ctx):
     results = list(ex.map(lambda ch: judge(ctx, RD, ch, 'random histories'), chunks))
   for chunk, verdicts in zip(chunks, results):
     handle_verdicts(ctx, verdicts, chunk, 'history')
+
+  # D. writer level: the real writeCachedDataPoints() with MAX_CREATES_PER_MINUTE and MAX_UPDATES_PER_SECOND set, on a
+  # virtual clock against the in-memory database: the times of the create and write calls are the grants
+  writer_level(ctx)
 
   # negative controls: a corrupted field must be flagged
   import copy
